@@ -83,6 +83,15 @@ DefOlaArgs(kw) ==
      ELSE IF n = "hop" THEN Get(kw, "hop", 0)
      ELSE kw[CHOOSE o \in opts : OlaStrip[o] = n]]
 
+\* what C09 demands of the arguments f the overlap-add was really called with: only size, hop and stripped ola_
+\* options, each with the value given, nothing given withheld -- a hop that was never given may be left to the
+\* strategy's own default (None) instead of being passed as None
+OlaArgsOK(f, kw) ==
+  LET want == DefOlaArgs(kw) IN
+  /\ DOMAIN f \subseteq DOMAIN want
+  /\ \A n \in DOMAIN f : f[n] = want[n]
+  /\ \A n \in DOMAIN want : n \in DOMAIN f \/ (n = "hop" /\ want[n] = 0)
+
 \* configurations this model speaks about: numpy is absent, so every stage and the overlap-add
 \* strategy must be named (their defaults import numpy); overlap_add.list takes wnd / normalize only
 InScope(c) ==
@@ -206,7 +215,8 @@ ErrorsAsDefined == pc \in {"blocks", "done"} => err = DefError(DefMerged(case))
 \* only size, hop and the ola_-prefixed options (prefix removed) reach the overlap-add
 OnlyOlaOptions ==
   pc \in {"blocks", "done"} /\ err = "none" =>
-    /\ olaArgs = DefOlaArgs(DefMerged(case))
+    /\ olaArgs = DefOlaArgs(DefMerged(case))          \* (what this model of the code does; it satisfies ...)
+    /\ OlaArgsOK(olaArgs, DefMerged(case))            \* (... what the property demands)
     /\ \A n \in DOMAIN olaArgs : n \in {"size", "hop"} \/ \E o \in DOMAIN kws : o \in DOMAIN OlaStrip /\ OlaStrip[o] = n
 
 \* the user function sees the windowed block (after `before` and `transform` when present)
